@@ -13,6 +13,10 @@ INT, LONG, FLOAT, DOUBLE, BOOL, CHAR, STRING = ("int",), ("long",), ("float",), 
 ARR = ("arr", 1, INT)
 ARR2 = ("arr", 2, INT)
 FARR = ("arr", 1, FLOAT)
+RNG = ("range", 1)
+RNG2 = ("range", 2)
+SLC = ("slice", 1, INT)
+SLC2 = ("slice", 2, INT)
 REC = ("named", "R")
 ENUM = ("named", "E")
 OPT = ("named", "O")
@@ -28,7 +32,7 @@ NAMES = ["a", "b", "c", "x", "y", "z", "k", "m", "t", "u", "v", "w"]
 FNAMES = ["f", "g", "h", "aux", "go", "step"]
 
 DEFAULT_KNOBS = dict(nesting=3, closures=0.5, shadowing=0.6, faults=0.25, recursion=0.5, loops=0.5, prints=0.5,
-                     records=0.5, arrays=0.6, strings=0.4, floats=0.4, enums=0.4, catches=0.5, main_args=0.5)
+                     records=0.5, arrays=0.6, strings=0.4, floats=0.4, enums=0.4, catches=0.5, main_args=0.5, ranges=0.6)
 
 class Scope:
     """one symbol-table block: names must be unique within it"""
@@ -163,6 +167,10 @@ class Gen:
             return self.e_string(scope, d)
         if k == "arr":
             return self.e_arr(ty, scope, d)
+        if k == "range":
+            return self.e_rng(ty, scope, d)
+        if k == "slice":
+            return self.e_slc(ty, scope, d)
         if k == "named":
             return self.e_named(ty, scope, d)
         if k == "func":
@@ -175,6 +183,15 @@ class Gen:
             v = self.r.choice(vs)
             return ["var", v["name"]], v["ck"]
         k = ty[0]
+        if k == "range":
+            return ["range", [self.small_lit() for _ in range(2 * ty[1])]], "T"
+        if k == "slice":
+            if ty == SLC2:
+                return ["slice", ["arrlit", [2, 3], INT, [self.lit(INT) for _ in range(6)]],
+                        [["int", self.r.range(0, 1)], ["int", self.r.range(0, 1)], ["int", self.r.range(0, 2)], ["int", self.r.range(0, 2)]]], "T"
+            n = self.r.range(2, 5)
+            return ["slice", ["arrlit", [n], INT, [self.lit(INT) for _ in range(n)]],
+                    [["int", self.r.range(0, n - 1)], ["int", self.r.range(0, n - 1)]]], "T"
         if k == "arr":
             if ty == ARR2:
                 return ["arrlit", [2, 2], INT, [self.lit(INT) for _ in range(4)]], "T"
@@ -213,9 +230,28 @@ class Gen:
         c = r.weighted([("lit", 10), ("var", 14), ("arith", 22), ("divmod", 7), ("print", 10), ("cond", 8), ("call", 14),
                         ("index", int(10 * self.k["arrays"])), ("field", int(8 * self.k["records"])), ("assign", 7),
                         ("block", 8), ("len", int(4 * self.k["strings"])), ("ord", 2), ("conv", 3), ("match", int(6 * self.k["enums"])),
-                        ("neg", 3), ("bit", 3), ("loopv", 2), ("tuple", 2)])
+                        ("neg", 3), ("bit", 3), ("loopv", 2), ("tuple", 2),
+                        ("rindex", int(8 * self.k["ranges"])), ("sindex", int(8 * self.k["ranges"])), ("fold", int(9 * self.k["ranges"]))])
         if c == "lit":
             return self.lit(INT), "T"
+        if c == "fold":
+            return self.fold(scope, d - 1), "C"
+        if c == "rindex":
+            if self.ch(0.2):
+                a, _ = self.expr(RNG2, scope, d - 1)
+                self.use("range:index2")
+                return ["index", ["index", a, [self.pos_expr(scope, d - 1), self.pos_expr(scope, d - 1)]], [["int", r.range(0, 1)]]], "C"
+            a, _ = self.expr(RNG, scope, d - 1)
+            self.use("range:index")
+            return ["index", ["index", a, [self.pos_expr(scope, d - 1)]], [["int", 0]]], "C"
+        if c == "sindex":
+            if self.ch(0.2):
+                a, ck = self.expr(SLC2, scope, d - 1)
+                self.use("slice:index2")
+                return ["index", a, [self.pos_expr(scope, d - 1), self.pos_expr(scope, d - 1)]], ("V" if ck in ("V", "T") else "C")
+            a, ck = self.expr(SLC, scope, d - 1)
+            self.use("slice:index")
+            return ["index", a, [self.pos_expr(scope, d - 1)]], ("V" if ck in ("V", "T") else "C")
         if c == "var":
             return self.leaf(INT, scope)
         if c == "arith":
@@ -248,6 +284,9 @@ class Gen:
         if c == "print":
             a, _ = self.expr(INT, scope, d - 1)
             self.use("builtin:print")
+            if self.ch(0.1):
+                self.use("pipe:builtin")
+                return ["builtin", "print", [a], "pipe"], "T"
             return ["builtin", "print", [a]], "T"
         if c == "cond":
             cnd = self.e_cond(scope, d - 1)
@@ -319,6 +358,92 @@ class Gen:
 
     def as_block(self, e):
         return e if e[0] == "seq" else ["seq", [["e", e]]]
+
+    def small_lit(self):
+        """a literal bound of a range: small (loops over ranges nest, so lengths stay near those of the arrays and counter
+        loops: at most 8, about 3 on average), sometimes negative"""
+        r = self.r
+        if self.ch(0.85):
+            return ["int", r.range(0, 3)]
+        v = r.choice([-1, -2, 4, 5])
+        return ["int", v] if v >= 0 else ["un", "neg", ["int", -v]]
+
+    def small(self, scope, d, alias_ok=True):
+        """an int expression whose value is small (loops over ranges must stay short).  A bare name makes the
+        range ALIAS that cell: only constants with a small initialiser and reserved counters (an assignable variable may
+        hold anything by the time the range is used; `forin_moving_bound` covers a bound assigned during the loop)"""
+        r = self.r
+        c = r.weighted([("lit", 55), ("name", 20), ("mask", 15), ("arith", 10)])
+        if c == "name":
+            vs = [v for v in self.vars_of(scope, INT) if v.get("small") and (v["ck"] == "C" or v.get("reserved"))]
+            if vs:
+                self.use("range:bound-aliases-cell")
+                return ["var", r.choice(vs)["name"]]
+        if c == "mask" and d > 0:
+            e, _ = self.expr(INT, scope, min(d - 1, 1))
+            self.use("range:bound-computed")
+            return ["bin", "band", e, ["int", 3]]
+        if c == "arith":
+            return ["bin", r.choice(["add", "sub"]), self.small_lit(), ["int", r.range(0, 2)]]
+        return self.small_lit()
+
+    def pos_expr(self, scope, d):
+        """a position inside a range / slice (length unknown statically): mostly the first few, at the bounds, one beyond"""
+        if self.ch(self.k["faults"] * 0.5):
+            self.use("fault:position")
+            e, _ = self.expr(INT, scope, min(d, 1))
+            return e
+        return ["int", self.r.choice([0, 0, 0, 1, 1, 2, 3, 4])]
+
+    def e_rng(self, ty, scope, d):
+        r = self.r
+        n = ty[1]
+        # (no `c ? r1 : r2`: the typechecker has no rule for a conditional of range type)
+        c = r.weighted([("lit", 40), ("var", 30), ("sub", 14), ("call", 6 if n == 1 else 0)])
+        if c == "var":
+            return self.leaf(ty, scope)
+        if c == "sub":
+            a, _ = self.expr(ty, scope, d - 1)
+            self.use("range:slice-of-range")
+            return ["slice", a, [self.sub_pos(scope, d - 1) for _ in range(2 * n)]], "T"
+        if c == "call":
+            e = self.call(ty, scope, d)
+            if e is not None:
+                return e, "C"
+        self.use("range:literal" if n == 1 else "range:literal2")
+        bs = []
+        for i in range(2 * n):
+            bs.append(self.small(scope, d - 1, alias_ok=(i % 2 == 0)))
+        if self.ch(0.1):
+            bs[1] = bs[0] if bs[0][0] == "int" else bs[1]      # [a .. a]: one element
+        return ["range", bs], "T"
+
+    def sub_pos(self, scope, d):
+        """a bound of an inner range `x[c .. d]`: a position of the outer one"""
+        if self.ch(self.k["faults"] * 0.4):
+            self.use("fault:sub-position")
+            return self.small(scope, d)
+        return ["int", self.r.choice([0, 0, 1, 1, 2, 3])]
+
+    def e_slc(self, ty, scope, d):
+        r = self.r
+        n = ty[1]
+        c = r.weighted([("arr", 40), ("var", 30), ("sub", 14), ("call", 6 if n == 1 else 0)])
+        if c == "var":
+            return self.leaf(ty, scope)
+        # const kind: the elements seen through a slice are assignable iff those of what was sliced are (the real
+        # typechecker lets a `var` slice of a `let` array through — a hole this generator does not rely on)
+        if c == "sub":
+            a, ck = self.expr(ty, scope, d - 1)
+            self.use("slice:slice-of-slice")
+            return ["slice", a, [self.sub_pos(scope, d - 1) for _ in range(2 * n)]], ("C" if ck == "C" else "T")
+        if c == "call":
+            e = self.call(ty, scope, d)
+            if e is not None:
+                return e, "C"
+        a, ck = self.expr(ARR if n == 1 else ARR2, scope, d - 1)
+        self.use("slice:of-array" if n == 1 else "slice:of-array2")
+        return ["slice", a, [self.sub_pos(scope, d - 1) for _ in range(2 * n)]], ("C" if ck == "C" else "T")
 
     def index_expr(self, scope, d, n):
         """an index for an array of length >= 1 (unknown statically): mostly 0, sometimes anything"""
@@ -530,9 +655,19 @@ class Gen:
 
     def e_string(self, scope, d):
         r = self.r
-        c = r.weighted([("lit", 12), ("var", 10), ("cat", 12), ("cati", 6), ("catf", 3), ("catc", 3), ("str", 4), ("print", 5), ("cond", 3), ("strf", 2)])
+        c = r.weighted([("lit", 12), ("var", 10), ("cat", 12), ("cati", 6), ("catf", 3), ("catc", 3), ("str", 4), ("print", 5), ("cond", 3), ("strf", 2),
+                        ("slice", int(10 * self.k["ranges"]))])
         if c == "var":
             return self.leaf(STRING, scope)
+        if c == "slice":
+            a, _ = self.expr(STRING, scope, d - 1)
+            self.use("string:slice")
+            if self.ch(0.6):
+                a = ["bin", "add", ["str", bytes(r.choice([65, 66, 67, 100, 101, 48]) for _ in range(4))], a]   # at least 4 characters
+            elif not self.ch(self.k["faults"]):
+                a = ["bin", "add", ["str", b"xy"], a]
+            lo, hi = self.sub_pos(scope, d - 1), self.sub_pos(scope, d - 1)
+            return ["slice", a, [lo, hi]], "T"
         if c == "cat":
             a, _ = self.expr(STRING, scope, d - 1); b, _ = self.expr(STRING, scope, d - 1)
             self.use("string:concat")
@@ -573,9 +708,18 @@ class Gen:
             n, m = r.range(1, 2), r.range(2, 3)
             return ["arrlit", [n, m], INT, [self.expr(INT, scope, d - 1)[0] for _ in range(n * m)]], "T"
         el = ty[2]
-        c = r.weighted([("lit", 14), ("var", 12), ("new", 5), ("comp", 6 if el == INT else 0), ("call", 4 if el == INT else 0)])
+        c = r.weighted([("lit", 14), ("var", 12), ("new", 5), ("comp", 6 if el == INT else 0), ("call", 4 if el == INT else 0),
+                        ("rderef", int(5 * self.k["ranges"]) if el == INT else 0)])
         if c == "var":
             return self.leaf(ty, scope)
+        if c == "rderef":
+            if self.ch(0.3):
+                a, _ = self.expr(RNG2, scope, d - 1)
+                self.use("range:deref2")
+                return ["index", a, [self.pos_expr(scope, d - 1), self.pos_expr(scope, d - 1)]], "C"
+            a, _ = self.expr(RNG, scope, d - 1)
+            self.use("range:deref")
+            return ["index", a, [self.pos_expr(scope, d - 1)]], "C"
         if c == "new":
             self.use("arrnew")
             if self.ch(self.k["faults"] * 0.5):
@@ -603,7 +747,7 @@ class Gen:
 
     def listcomp(self, scope, d):
         self.use("listcomp")
-        coll, _ = self.expr(ARR, scope, d)
+        coll, _ = self.expr(self.coll_type("listcomp"), scope, d)
         inner = Scope(scope)
         used = set(); names_used(coll, used)      # the qualifier's name must not be used by a function inside its collection (freevar defect)
         x = self.pick_name(inner, avoid=used)
@@ -615,7 +759,7 @@ class Gen:
             self.use("listcomp:filter")
             names_used(f, used)
         if self.ch(0.25):
-            coll2, _ = self.expr(ARR, inner, min(d, 1))
+            coll2, _ = self.expr(self.coll_type("listcomp2"), inner, min(d, 1))
             names_used(coll2, used)
             if x in used:
                 return ["listcomp", INT, self.expr(INT, inner, min(d, 2))[0], quals]
@@ -625,6 +769,12 @@ class Gen:
             self.use("listcomp:2gen")
         body, _ = self.expr(INT, inner, min(d, 2))
         return ["listcomp", INT, body, quals]
+
+    def coll_type(self, what):
+        t = self.r.weighted([(ARR, 60), (RNG, int(35 * self.k["ranges"])), (SLC, int(25 * self.k["ranges"]))])
+        if t != ARR:
+            self.use("%s:over-%s" % (what, t[0]))
+        return t
 
     def e_named(self, ty, scope, d):
         r = self.r
@@ -695,6 +845,13 @@ class Gen:
                 cands.append(["index", ["var", v["name"]], [["int", 0]]])
             for v in self.vars_of(scope, REC, "V"):
                 cands.append(["field", ["var", v["name"]], "a"])
+            for v in self.vars_of(scope, SLC, "V"):
+                if not v.get("param"):
+                    cands.append(["index", ["var", v["name"]], [["int", r.choice([0, 0, 1])]]])
+            if self.ch(0.15):
+                for v in self.vars_of(scope, ARR, "V"):
+                    # a temporary slice of an assignable array: the assignment writes the array's element cell
+                    cands.append(["index", ["slice", ["var", v["name"]], [["int", 0], ["int", r.range(0, 2)]]], [["int", 0]]])
         if ty == FLOAT:
             for v in self.vars_of(scope, REC, "V"):
                 cands.append(["field", ["var", v["name"]], "b"])
@@ -732,11 +889,14 @@ class Gen:
             if kind == "var" and (ck == "C" or ty[0] == "func"):
                 kind = "let"
             name = self.pick_name(scope)
-            scope.add(name, ty, "V" if kind == "var" else "C")
+            # `var y = i` binds y to the very cell of i: an alias of a loop counter must stay as untouchable as the counter
+            alias_of_reserved = self.may_be_reserved_cell(scope, e)
+            scope.add(name, ty, "V" if kind == "var" else "C", small=(ty == INT and kind == "let" and self.is_small(e)),
+                      reserved=alias_of_reserved)
             self.use("bind:" + kind)
             return [["let" if kind == "let" else "varb", name, e]]
         if c == "assign":
-            ty = r.choice([INT, INT, FLOAT, STRING, ARR, REC, BOOL])
+            ty = r.choice([INT, INT, FLOAT, STRING, ARR, REC, BOOL, RNG, SLC])
             t = self.lvalue(ty, scope, d)
             if t is None:
                 return []
@@ -767,6 +927,34 @@ class Gen:
         e, _ = self.expr(self.pick_type(), scope, d)
         return [["e", e]]
 
+    def may_be_reserved_cell(self, scope, e):
+        """can the value of e be the very CELL of a reserved name (a loop counter)?  A name, and the constructs that pass on
+        the cell of a sub-expression: a conditional, a block, a match / if-let"""
+        t = e[0]
+        if t == "var":
+            return self.reserved(scope, e[1])
+        if t == "cond":
+            return self.may_be_reserved_cell(scope, e[2]) or self.may_be_reserved_cell(scope, e[3])
+        if t == "seq":
+            last = e[1][-1]
+            return last[0] == "e" and self.may_be_reserved_cell(scope, last[1])
+        if t == "match":
+            return any(self.may_be_reserved_cell(scope, g[-1]) for g in e[2])
+        if t == "iflet":
+            return self.may_be_reserved_cell(scope, e[1][-1]) or (e[3] is not None and self.may_be_reserved_cell(scope, e[3]))
+        return False
+
+    def is_small(self, e):
+        """syntactically small int (a literal below 10 or masked): its name may be used directly as a range bound.
+        Only `let` bindings keep the value; a `var` may be assigned anything later, so only the `from` bound may alias it."""
+        if e[0] == "int":
+            return -4 < e[1] < 6
+        if e[0] == "un" and e[1] == "neg" and e[2][0] == "int":
+            return e[2][1] < 4
+        if e[0] == "bin" and e[1] == "band" and e[3][0] == "int":
+            return 0 <= e[3][1] < 6
+        return False
+
     def observe(self, scope):
         """print some of the variables of this block: makes wrong cells/values visible"""
         out = []
@@ -790,6 +978,8 @@ class Gen:
                 out.append(["e", ["builtin", "printc", [x]]])
             elif t == ARR:
                 out.append(["e", ["forin", "o_" + v["name"], x, ["seq", [["e", ["builtin", "print", [["var", "o_" + v["name"]]]]]]]]])
+            elif t == RNG or t == SLC:
+                out.append(["e", ["forin", "o_" + v["name"], x, ["seq", [["e", ["builtin", "print", [["var", "o_" + v["name"]]]]]]]]])
             elif t == REC:
                 out.append(["e", ["cond", ["bin", "ne", x, ["nil"]], ["seq", [["e", ["builtin", "print", [["field", x, "a"]]]]]], ["int", 0], "ifnoelse"]])
             elif t == F_I:
@@ -803,7 +993,8 @@ class Gen:
         return self.r.weighted([(INT, 30), (BOOL, 8), (FLOAT, int(14 * k["floats"])), (STRING, int(12 * k["strings"])),
                                 (ARR, int(14 * k["arrays"])), (REC, int(12 * k["records"])), (CHAR, 3), (LONG, 4), (DOUBLE, 3),
                                 (F_II, int(8 * k["closures"])), (F_I, int(5 * k["closures"])), (ENUM, int(5 * k["enums"])),
-                                (OPT, int(5 * k["enums"])), (ARR2, int(4 * k["arrays"])), (FARR, int(3 * k["arrays"] * k["floats"]))])
+                                (OPT, int(5 * k["enums"])), (ARR2, int(4 * k["arrays"])), (FARR, int(3 * k["arrays"] * k["floats"])),
+                                (RNG, int(12 * k["ranges"])), (SLC, int(10 * k["ranges"])), (RNG2, int(3 * k["ranges"])), (SLC2, int(2 * k["ranges"]))])
 
     def loop(self, scope, d):
         """a loop on a reserved counter; evaluates to int 0"""
@@ -833,15 +1024,67 @@ class Gen:
 
     def forin(self, scope, d):
         self.use("forin")
-        coll, ck = self.expr(ARR, scope, d - 1)
+        if self.ch(0.12 * self.k["ranges"]):
+            return self.forin_moving_bound(scope, d)
+        cty = self.coll_type("forin")
+        coll, ck = self.expr(cty, scope, d - 1)
         inner = Scope(scope)
         used = set(); names_used(coll, used)
         x = self.pick_name(inner, avoid=used)
-        inner.add(x, INT, "V" if ck == "V" else "C")
+        inner.add(x, INT, "V" if (ck == "V" and cty != RNG) else "C", small=(cty == RNG))
         body_scope = Scope(inner)
+        first = [["e", ["builtin", "print", [["var", x]]]]] if (cty != ARR and self.ch(0.6)) else []
         items = self.items(body_scope, d - 1, self.r.range(1, 2))
         e, _ = self.expr(INT, body_scope, min(d - 1, 2))
-        return ["forin", x, coll, ["seq", items + [["e", e]]]]
+        return ["forin", x, coll, ["seq", first + items + [["e", e]]]]
+
+    def fold(self, scope, d):
+        """`{ var acc = 0; for (x in coll) { acc = acc * 3 + x }; acc }`: every element of a range / slice (mostly a composed
+        one) enters the result, in order"""
+        r = self.r
+        cty = RNG if self.ch(0.55) else SLC
+        self.use("fold:over-" + cty[0])
+        if self.ch(0.7):
+            base, _ = self.expr(cty, scope, d)
+            coll = ["slice", base, [self.sub_pos(scope, d), self.sub_pos(scope, d)]]
+            self.use("fold:composed")
+        else:
+            coll, _ = self.expr(cty, scope, d)
+        acc = self.counter_name()
+        outer = Scope(scope)
+        outer.add(acc, INT, "V", reserved=True)
+        inner = Scope(outer)
+        used = set(); names_used(coll, used)
+        x = self.pick_name(inner, avoid=used | {acc})
+        inner.add(x, INT, "C", small=(cty == RNG))
+        if self.ch(0.35):
+            # through a comprehension generator (its own loop code in the emitter)
+            self.use("fold:through-comprehension")
+            y = self.pick_name(inner, avoid=used | {acc, x})
+            coll = ["listcomp", INT, ["var", y], [["gen", y, coll]]]
+        step = ["assign", ["var", acc], ["bin", "add", ["bin", "mul", ["var", acc], ["int", 3]], ["var", x]]]
+        return ["seq", [["varb", acc, ["int", 0]], ["e", ["forin", x, coll, ["seq", [["e", step]]]]], ["e", ["var", acc]]]]
+
+    def forin_moving_bound(self, scope, d):
+        """`{ var k = n; for (x in [a .. k]) { k = k - 1; … } }`: the range holds the CELL of k, `to` is re-read before
+        every iteration (k only moves towards `from`, so the loop ends)"""
+        r = self.r
+        self.use("forin:to-bound-assigned-in-body")
+        k = self.counter_name()
+        outer = Scope(scope)
+        n = r.range(2, 4)
+        up = self.ch(0.5)
+        outer.add(k, INT, "V", reserved=True, small=True)
+        inner = Scope(outer)
+        x = self.pick_name(inner, avoid={k})
+        inner.add(x, INT, "C", small=True)
+        body_scope = Scope(inner)
+        items = self.items(body_scope, d - 1, r.range(0, 1))
+        move = ["assign", ["var", k], ["bin", "sub" if up else "add", ["var", k], ["int", 1]]]
+        e, _ = self.expr(INT, body_scope, min(d - 1, 2))
+        frm = ["int", r.range(0, 1)] if up else ["int", n + r.range(0, 1)]
+        body = ["seq", [["e", move], ["e", ["builtin", "print", [["var", x]]]]] + items + [["e", e]]]
+        return ["seq", [["varb", k, ["int", n if up else 0]], ["e", ["forin", x, ["range", [frm, ["var", k]]], body]], ["e", ["var", k]]]]
 
     # ------------------------------------------------------------ functions
     def call(self, ret, scope, d):
@@ -858,6 +1101,19 @@ class Gen:
         self.use("call")
         if f.get("closure"):
             self.use("call:closure-var")
+        ps = f["ty"][1]
+        if not f.get("decl") and args and ps[0]["ty"] == INT and ps[0].get("mut") != "var":
+            # a function VALUE (parameter, `let v = h3`) may be a recursive function: like the direct calls that
+            # clamp_first_args() bounds after generation, it gets a small first argument
+            args[0] = ["bin", "band", args[0], ["int", 3]]
+        if args and ps[0].get("mut") != "var" and self.ch(0.18):
+            # `x |> f(rest)` = `f(x, rest)`; a tuple on the left is unpacked into the leading parameters
+            simple = lambda t: t in (INT, FLOAT, BOOL, STRING, CHAR, LONG, DOUBLE)
+            if len(args) >= 2 and ps[1].get("mut") != "var" and simple(ps[0]["ty"]) and simple(ps[1]["ty"]) and self.ch(0.7):
+                self.use("pipe:tuple")
+                return ["pipe", ["tuple", [args[0], args[1]], [ps[0]["ty"], ps[1]["ty"]]], ["var", f["name"]], args[2:]]
+            self.use("pipe")
+            return ["pipe", args[0], ["var", f["name"]], args[1:]]
         return ["call", ["var", f["name"]], args]
 
     def args_for(self, fty, scope, d):
@@ -905,7 +1161,7 @@ class Gen:
         # termination, body i may call only group members j < i (and itself, guarded)
         entries = []
         for name, sig in zip(names, sigs):
-            entries.append(scope.add(name, sig, "C", hidden=True))
+            entries.append(scope.add(name, sig, "C", hidden=True, decl=True))
         fs = []
         for i, (name, sig) in enumerate(zip(names, sigs)):
             f = self.func_decl(name, sig, scope, d - 1, allow_rec=True, self_entry=entries[i])
@@ -918,11 +1174,13 @@ class Gen:
     def pick_sig(self):
         r = self.r
         ret = r.weighted([(INT, 50), (FLOAT, int(10 * self.k["floats"])), (ARR, int(6 * self.k["arrays"])), (REC, int(6 * self.k["records"])),
-                          (F_II, int(10 * self.k["closures"])), (F_I, int(6 * self.k["closures"])), (BOOL, 4), (STRING, int(5 * self.k["strings"]))])
+                          (F_II, int(10 * self.k["closures"])), (F_I, int(6 * self.k["closures"])), (BOOL, 4), (STRING, int(5 * self.k["strings"])),
+                          (RNG, int(5 * self.k["ranges"])), (SLC, int(4 * self.k["ranges"]))])
         ps = []
         for _ in range(r.weighted([(0, 15), (1, 40), (2, 30), (3, 10)])):
             ty = r.weighted([(INT, 50), (FLOAT, int(12 * self.k["floats"])), (ARR, int(10 * self.k["arrays"])), (REC, int(8 * self.k["records"])),
-                             (F_II, int(10 * self.k["closures"])), (STRING, int(6 * self.k["strings"])), (BOOL, 4), (OPT, int(4 * self.k["enums"]))])
+                             (F_II, int(10 * self.k["closures"])), (STRING, int(6 * self.k["strings"])), (BOOL, 4), (OPT, int(4 * self.k["enums"])),
+                             (RNG, int(9 * self.k["ranges"])), (SLC, int(8 * self.k["ranges"])), (RNG2, int(2 * self.k["ranges"]))])
             mut = "var" if (ty in (INT, FLOAT, ARR, REC) and self.ch(0.2)) else None
             ps.append(P("p", ty, mut))
         return ("func", ps, ret)
@@ -932,7 +1190,7 @@ class Gen:
         fid = self.fresh_id()
         fscope = Scope(scope, func_boundary=True)
         if name:
-            fscope.add(name, fty, "C", hidden=True, reserved=True)   # the function's own entry in its own table
+            fscope.add(name, fty, "C", hidden=True, reserved=True, decl=True)   # the function's own entry in its own table
         params = []
         rec = allow_rec and name and fty[1] and fty[1][0]["ty"] == INT and fty[1][0].get("mut") != "var" and self.ch(self.k["recursion"]) \
             and fty[2] in (INT, FLOAT)
@@ -945,8 +1203,15 @@ class Gen:
                     fscope.add(dn, INT, "C")
                     dims.append(dn)
                 self.use("param:dims")
+            if p["ty"][0] in ("range", "slice") and self.ch(0.7):
+                for j in range(2 * p["ty"][1]):
+                    dn = self.pick_name(fscope, ["from", "to", "lo", "hi", "f1", "t1", "f2", "t2"])
+                    # slice bound names are 0 and the length - 1 of a short array; range bound names alias the caller's cells
+                    fscope.add(dn, INT, "C", small=(p["ty"][0] == "slice"))
+                    dims.append(dn)
+                self.use("param:bounds-" + p["ty"][0])
             ck = "V" if p.get("mut") == "var" else "C"
-            fscope.add(pn, p["ty"], ck, reserved=(rec and i == 0), closure=(p["ty"][0] == "func"))
+            fscope.add(pn, p["ty"], ck, reserved=(rec and i == 0), closure=(p["ty"][0] == "func"), param=True)
             params.append(dict(name=pn, ty=p["ty"], dims=dims, mut=p.get("mut")))
         catches = []
         if self.ch(self.k["catches"] * 0.5) and not is_main or (is_main and self.ch(self.k["catches"] * 0.3)):
@@ -1020,7 +1285,7 @@ class Gen:
     # ------------------------------------------------------------ program
     def program(self):
         r = self.r
-        self.budget = 220
+        self.budget = 250
         top = Scope(None)
         prog = dict(recs=[("R", [("a", INT, None), ("b", FLOAT, None), ("next", REC, None)])],
                     enums=[("E", [("ea", 0, None), ("eb", 1, None), ("ec", 2, None)]),
@@ -1034,7 +1299,7 @@ class Gen:
         funcs = []
         for nm in names:
             sig = self.pick_sig()
-            ent = top.add(nm, sig, "C", hidden=True)
+            ent = top.add(nm, sig, "C", hidden=True, decl=True)
             f = self.func_decl(nm, sig, top, self.k["nesting"], allow_rec=True)
             ent["hidden"] = False
             # a recursive function is called from outside with a small literal first argument only
@@ -1042,7 +1307,7 @@ class Gen:
         # main
         nargs = r.range(1, 2) if self.ch(self.k["main_args"]) else 0
         msig = ("func", [P("p", INT) for _ in range(nargs)], r.weighted([(INT, 70), (FLOAT, 12), (BOOL, 8), (LONG, 5), (DOUBLE, 5)]))
-        self.budget = 260
+        self.budget = 300
         mainf = self.func_decl("main", msig, top, self.k["nesting"], allow_rec=False, is_main=True)
         funcs.append(mainf)
         prog["funcs"] = funcs
@@ -1077,6 +1342,12 @@ def clamp_first_args(prog, rec_names):
             return
         if isinstance(e, list) and e[0] == "call" and e[1][0] == "var" and e[1][1] in rec_names and e[1][1] not in inside and e[2]:
             e[2][0] = ["bin", "band", e[2][0], ["int", 3]]
+        if isinstance(e, list) and e[0] == "pipe" and e[2][0] == "var" and e[2][1] in rec_names and e[2][1] not in inside:
+            # `x |> f(…)`: x (or the first component of a piped tuple) is f's first argument
+            if e[1][0] == "tuple":
+                e[1][1][0] = ["bin", "band", e[1][1][0], ["int", 3]]
+            else:
+                e[1] = ["bin", "band", e[1], ["int", 3]]
         for x in e:
             if isinstance(x, (list, dict, tuple)):
                 walk(x, inside)
@@ -1145,7 +1416,7 @@ def param_binders(ps):
     out = []
     for p in ps:
         out.append(p["name"])
-        if p["ty"][0] == "arr":
+        if p["ty"][0] in ("arr", "range", "slice"):
             out.extend(p["dims"])
     return out
 
@@ -1158,7 +1429,7 @@ def rn_func(nu, bs, f):
         q = dict(p)
         q["name"] = nu(p["name"], len(bs2)); bs2.append(p["name"])
         nd = []
-        if p["ty"][0] == "arr":
+        if p["ty"][0] in ("arr", "range", "slice"):
             for dn in p["dims"]:
                 nd.append(nu(dn, len(bs2))); bs2.append(dn)
         q["dims"] = nd
@@ -1215,7 +1486,7 @@ def rn_expr(nu, bs, e):
     if t == "call":
         return ["call", R(e[1]), [R(a) for a in e[2]]]
     if t == "builtin":
-        return ["builtin", e[1], [R(a) for a in e[2]]]
+        return ["builtin", e[1], [R(a) for a in e[2]]] + list(e[3:])
     if t == "lam":
         f = e[1]
         return ["lam", rn_func(nu, bs + [f["name"]] if f["name"] else bs, f)]
@@ -1237,6 +1508,12 @@ def rn_expr(nu, bs, e):
         return ["match", R(e[1]), [rn_guard(nu, bs, g) for g in e[2]]]
     if t == "iflet":
         return ["iflet", rn_guard(nu, bs, e[1]), R(e[2]), None if e[3] is None else R(e[3])]
+    if t == "pipe":
+        return ["pipe", R(e[1]), R(e[2]), [R(a) for a in e[3]]]
+    if t == "range":
+        return ["range", [R(a) for a in e[1]]]
+    if t == "slice":
+        return ["slice", R(e[1]), [R(a) for a in e[2]]]
     if t == "listcomp":
         bs2 = list(bs); qs = []
         for q in e[3]:
